@@ -746,6 +746,11 @@ class IteratorQueue(IterableQueue[_ValueT]):
         logging.debug(
             'chainable: %s', f'"{self.name}" enqueue done, notify all'
         )
+        if self._exception is not None:
+          # Also wakes up the other enqueuers blocked by a full queue.
+          _release_and_notify(
+              self._states_lock, notify=self._enqueue_lock, notify_all=True
+          )
 
   def maybe_stop(self, exc: Exception | None = None):
     """Stops the producer and optionally terminates the consumer.
